@@ -70,6 +70,18 @@ def api_call(arg: dict) -> dict:
     from src.orchestrator.core import Orchestrator
     orch = Orchestrator(project_root=Path(arg["root"]))
     m = arg["method"]
+    if arg.get("steps_cap"):
+        seams.steps_start(arg["steps_cap"])
+        try:
+            vs = _api_dispatch(orch, m, arg)
+        finally:
+            steps = seams.steps_stop()
+        return _finish(ctx, {"violations": [vtuple(v) for v in vs], "steps": steps})
+    vs = _api_dispatch(orch, m, arg)
+    return _finish(ctx, {"violations": [vtuple(v) for v in vs]})
+
+
+def _api_dispatch(orch, m, arg):
     if m == "lint_files":
         vs = orch.lint_files(_paths(arg))
     elif m == "lint_files_parallel":
@@ -81,7 +93,7 @@ def api_call(arg: dict) -> dict:
                                           max_workers=arg.get("workers"))
     else:
         raise ValueError(m)
-    return _finish(ctx, {"violations": [vtuple(v) for v in vs]})
+    return vs
 
 
 def cli_call(arg: dict) -> dict:
